@@ -6,7 +6,7 @@ import numpy as np
 from xdsl.context import Context
 from xdsl.dialects import arith, builtin, func, linalg, memref
 from xdsl.dialects.memref import MemorySpaceCastOp, SubviewOp
-from xdsl.ir import Attribute, Operation, OpResult
+from xdsl.ir import Attribute, Block, Operation, OpResult
 from xdsl.irdl import Operand
 from xdsl.parser import BytesAttr, DenseIntOrFPElementsAttr, MemRefType
 from xdsl.passes import ModulePass
@@ -558,8 +558,17 @@ class RealizeMemrefCasts(RewritePattern):
 
         # insert "copy from" for last use as output
         # walk parent op in reverse order to find last use as output
+        # if that use is nested in an operation that may not execute it (a loop or
+        # conditional), the last output use in front of that operation needs a copy too
+        covered_blocks: list[Block] = []
         for use_op in op.parent.walk(reverse=True):
             if use_op not in uses:
+                continue
+            # a copy inserted later in this block or in an enclosing one also serves this use
+            ancestor: Operation | None = use_op
+            while ancestor is not None and ancestor.parent_block() not in covered_blocks:
+                ancestor = ancestor.parent_op()
+            if ancestor is not None:
                 continue
             # check if input
             is_output = False
@@ -576,7 +585,9 @@ class RealizeMemrefCasts(RewritePattern):
                 # insert copy op
                 copy_op = memref.CopyOp(op.dest, source_op.source)
                 rewriter.insert_op(copy_op, InsertPoint.after(use_op))
-                break
+                if (use_block := use_op.parent_block()) is op.parent or use_block is None:
+                    break
+                covered_blocks.append(use_block)
 
         # insert all ops
         rewriter.replace_op(op, ops_to_add)
